@@ -418,10 +418,12 @@ class Installer:
         # copyfile fails if the target file already exists, so remove it to
         # allow overwriting a previous install. If the target is not a file, we
         # want to give a readable error.
-        if os.path.exists(to_file):
-            if not os.path.isfile(to_file):
+        # lexists, because a symlink installed earlier may be dangling at the
+        # destination and must be replaced like any other previous file.
+        if os.path.lexists(to_file):
+            if not os.path.isfile(to_file) and not os.path.islink(to_file):
                 raise MesonException(f'Destination {to_file!r} already exists and is not a file')
-            if self.should_preserve_existing_file(from_file, to_file):
+            if os.path.isfile(to_file) and self.should_preserve_existing_file(from_file, to_file):
                 append_to_log(self.lf, f'# Preserving old file {to_file}\n')
                 self.preserved_file_count += 1
                 return False
